@@ -93,7 +93,7 @@ def oblig(r):
 OPS = ('Step', 'SetPenalty', 'SetConstraints', 'SetStrictRanges', 'SetLimitsNew', 'Finalize', 'SetEvalMon', 'Solve1')
 
 
-def program(kind, prog, dim=1):
+def program(kind, prog, dim=1, nomon=False):
     """public API only, from an arbitrary initial guess; after every call: evaluations == total number of calls of the
     user's cost; the evaluation monitor holds exactly those calls in order; best history non-increasing (while the
     objective is unchanged); step monitor of a stopped run ends in the reported result"""
@@ -103,7 +103,8 @@ def program(kind, prog, dim=1):
         s = S.make_solver(kind, dim)
         L.configure(s, w)
         em = Monitor()
-        s.SetEvaluationMonitor(em)
+        if not nomon:
+            s.SetEvaluationMonitor(em)
         if kind == 'Powell':
             S.install_brent_contract(ctx)
         x0 = ctx.reals('x', dim)
@@ -114,7 +115,8 @@ def program(kind, prog, dim=1):
         else:
             s.population[0] = list(x0)
         obs = []
-        mons = [em]
+        mons = [] if nomon else [em]
+        since = 0              # number of cost calls made before the current monitor chain was first installed
         objective_changed_at = []
         try:
             for j, op in enumerate(prog):
@@ -142,18 +144,22 @@ def program(kind, prog, dim=1):
                     s.Finalize()
                 elif op == 'SetEvalMon':
                     m = Monitor()
+                    if not mons:
+                        since = len(w.calls)
                     s.SetEvaluationMonitor(m)       # documented: existing data is prepended
                     mons.append(m)
                 elif op == 'Solve1':
                     s.SetEvaluationLimits(generations=1, new=True)
                     s.Solve(callback=w.callback)
                     s.SetEvaluationLimits(L.BIG, L.BIG)
-                cur = mons[-1]
                 obs.append(('evaluations==total-cost-calls@%d:%s' % (j, op), eq(s.evaluations, len(w.calls))))
-                obs.append(('evaluation-monitor-length==total-cost-calls@%d:%s' % (j, op), const(len(cur) == len(w.calls))))
-                if len(cur) == len(w.calls):
-                    for k in range(len(w.calls)):
-                        obs.append(('evaluation-monitor-record[%d]@%d' % (k, j), And(veq(L.vec(cur._x[k]), w.calls[k]), eq(L.scalar(cur._y[k]), w.values[k]))))
+                if mons:
+                    cur = mons[-1]
+                    calls, vals = w.calls[since:], w.values[since:]
+                    obs.append(('evaluation-monitor-length==cost-calls-since-installed@%d:%s' % (j, op), const(len(cur) == len(calls))))
+                    if len(cur) == len(calls):
+                        for k in range(len(calls)):
+                            obs.append(('evaluation-monitor-record[%d]@%d' % (k, j), And(veq(L.vec(cur._x[k]), calls[k]), eq(L.scalar(cur._y[k]), vals[k]))))
         finally:
             stubs.ORACLE.override = None
         return obs
@@ -174,6 +180,10 @@ def programs(tier):
                 out.append((kind, p))
         out.append(('DE', ('Step', 'SetPenalty', 'Step')))
         out.append(('DE2', ('Step', 'SetPenalty', 'Step')))
+        for kind in ('NM', 'Powell', 'DE'):
+            out.append((kind, ('nomon', 'Step', 'SetEvalMon', 'Step', 'Finalize', 'Step')))
+            out.append((kind, ('nomon', 'Step', 'Finalize', 'Step')))
+        out.append(('NM', ('nomon', 'Step', 'Step', 'SetEvalMon', 'Step', 'SetPenalty', 'Step')))
     else:
         for kind in ('NM', 'Powell', 'DE', 'DE2'):
             L_ = 4 if kind == 'NM' else 3
@@ -184,6 +194,8 @@ def programs(tier):
                     if kind != 'NM' and n == 3 and p[0] not in ('Step', 'Solve1'):
                         continue
                     out.append((kind, p))
+                    if n <= 3 and 'SetEvalMon' in p:
+                        out.append((kind, ('nomon',) + p + ('Finalize', 'Step')))
     return out
 
 
@@ -197,5 +209,6 @@ def instances(tier, seed):
             for mi in ((1,) if q else (0, 1, 2)):
                 out.append(Instance('wrapper/%s/%s/maxiter=%d' % (kind, cfg, mi), S.wrapper(kind, cfg, 1, mi, oblig)))
     for kind, p in programs(tier):
-        out.append(Instance('program/%s/%s' % (kind, '-'.join(p)), program(kind, p)))
+        nomon = p[0] == 'nomon'
+        out.append(Instance('program/%s/%s' % (kind, '-'.join(p)), program(kind, p[1:] if nomon else p, nomon=nomon)))
     return out
